@@ -11,10 +11,7 @@ import (
 
 // sort specifications exercised (the program dimension; parsed by the real
 // parser). key: which fields, in which direction.
-type vSortField struct {
-	field string // "s", "i", "f", "b", "id"
-	asc   bool
-}
+type vSortField = verifrt.SortField
 
 type vSortSpec struct {
 	text   string
@@ -48,127 +45,12 @@ func init() {
 	})
 }
 
-// cmpField: -1 / 0 / +1 of rows x, y on one field ascending (nulls first),
-// as a fork-free int64 term.
-func verifCmpField(f string, x, y *vRow, xi, yi int) int64 {
-	lt, gt := false, false
-	nullLess := func(xn, yn bool, vlt, vgt bool) (bool, bool) {
-		// xn/yn: null flags (concrete per path); vlt/vgt: value comparison when both non-null
-		if xn {
-			return !yn, false
-		}
-		if yn {
-			return false, true
-		}
-		return vlt, vgt
-	}
-	switch f {
-	case "id":
-		lt, gt = xi < yi, xi > yi // ids are in slot order
-	case "s":
-		var vlt, vgt bool
-		if x.S != nil && y.S != nil {
-			vlt, vgt = *x.S < *y.S, *x.S > *y.S
-		}
-		lt, gt = nullLess(x.S == nil, y.S == nil, vlt, vgt)
-	case "i":
-		var vlt, vgt bool
-		if x.I != nil && y.I != nil {
-			vlt, vgt = *x.I < *y.I, *x.I > *y.I
-		}
-		lt, gt = nullLess(x.I == nil, y.I == nil, vlt, vgt)
-	case "f":
-		var vlt, vgt bool
-		if x.F != nil && y.F != nil {
-			vlt, vgt = *x.F < *y.F, *x.F > *y.F
-		}
-		lt, gt = nullLess(x.F == nil, y.F == nil, vlt, vgt)
-	case "m":
-		lt, gt = verifrt.And(verifrt.Not(x.M), y.M), verifrt.And(x.M, verifrt.Not(y.M))
-	case "b":
-		var vlt, vgt bool
-		if x.B != nil && y.B != nil {
-			vlt, vgt = verifrt.And(verifrt.Not(*x.B), *y.B), verifrt.And(*x.B, verifrt.Not(*y.B))
-		}
-		lt, gt = nullLess(x.B == nil, y.B == nil, vlt, vgt)
-	}
-	return verifrt.IteInt64(lt, -1, verifrt.IteInt64(gt, 1, 0))
-}
-
-// precedes: does row x come strictly before row y under the sort spec
-// (remaining ties broken by id ascending)?
-func verifPrecedes(spec []vSortField, x, y *vRow, xi, yi int) bool {
-	res := xi < yi // final tie-break
-	for k := len(spec) - 1; k >= 0; k-- {
-		c := verifCmpField(spec[k].field, x, y, xi, yi)
-		if !spec[k].asc {
-			c = -c
-		}
-		res = verifrt.IteBool(c < 0, true, verifrt.IteBool(c > 0, false, res))
-	}
-	return res
-}
-
-type vPaging struct {
-	hasSkip  bool
-	skip     int64
-	limitSet int // 0 absent, 1 "none", 2 value
-	limit    int64
-}
-
-func verifSymPaging() vPaging {
-	p := vPaging{}
-	p.hasSkip = verifrt.Choose("skip.set", 2) == 1
-	if p.hasSkip {
-		p.skip = verifrt.Int64("skip")
-	}
-	p.limitSet = verifrt.Choose("limit.set", 3)
-	if p.limitSet == 2 {
-		p.limit = verifrt.Int64("limit")
-	}
-	return p
-}
-
-func (p vPaging) apply(q ast.Query) {
-	if p.hasSkip {
-		q.SetSkip(p.skip)
-	}
-	switch p.limitSet {
-	case 1:
-		q.SetLimit(-1) // what `limit none` parses to
-	case 2:
-		q.SetLimit(p.limit)
-	}
-}
-
-// expected page: k = max(skip,0) rows dropped, at most limit kept (absent,
-// negative, none = unbounded); all arithmetic overflow-free.
-func (p vPaging) expectLen(nMatch int64) int64 {
-	k := int64(0)
-	if p.hasSkip {
-		k = verifrt.IteInt64(p.skip > 0, p.skip, 0)
-	}
-	rest := verifrt.IteInt64(k >= nMatch, 0, nMatch-k) // nMatch - k cannot overflow when k < nMatch
-	if p.limitSet == 2 {
-		lim := verifrt.IteInt64(p.limit < 0, rest, p.limit)
-		return verifrt.IteInt64(lim < rest, lim, rest)
-	}
-	return rest
-}
-
-func (p vPaging) offset() int64 {
-	if p.hasSkip {
-		return verifrt.IteInt64(p.skip > 0, p.skip, 0)
-	}
-	return 0
-}
-
 func verifC02Rows(n int, spec []vSortField) []*vRow {
 	need := map[string]bool{}
 	for _, f := range spec {
-		need[f.field] = true
+		need[f.Field] = true
 	}
-	if len(spec) == 1 && spec[0].field == "m" {
+	if len(spec) == 1 && spec[0].Field == "m" {
 		need = map[string]bool{} // FiveFieldTies: all other keys stay null
 	}
 	rows := make([]*vRow, n)
@@ -194,35 +76,6 @@ func verifC02Rows(n int, spec []vSortField) []*vRow {
 	return rows
 }
 
-// checkPage: ids == the matching rows of rank offset, offset+1, ... in the
-// specified order; count == number of matching rows.
-func verifCheckPage(rows []*vRow, spec []vSortField, p vPaging, ids []string, count int64, label string) {
-	n := len(rows)
-	nMatch := int64(0)
-	rank := make([]int64, n)
-	for i := range rows {
-		nMatch += verifrt.IteInt64(rows[i].M, 1, 0)
-		for j := range rows {
-			if j != i {
-				rank[i] += verifrt.IteInt64(verifrt.And(rows[j].M, verifPrecedes(spec, rows[j], rows[i], j, i)), 1, 0)
-			}
-		}
-	}
-	verifrt.Assert(count == nMatch, label+": count is the number of matching rows, whatever skip and limit are")
-	verifrt.Assert(int64(len(ids)) == p.expectLen(nMatch), label+": page length = min(limit, matches - max(skip,0))")
-	off := p.offset()
-	ok := true
-	for pos, id := range ids {
-		hit := false
-		for i := range rows {
-			// rank_i == off + pos, written without overflow
-			hit = verifrt.Or(hit, verifrt.And(verifrt.And(rows[i].M, id == rows[i].Id), rank[i]-int64(pos) == off))
-		}
-		ok = verifrt.And(ok, hit)
-	}
-	verifrt.Assert(ok, label+": page holds the matching rows in the requested order, ties by id")
-}
-
 func verifC02(specs []vSortSpec) {
 	n := 2
 	if verifrt.Tier() == 1 {
@@ -242,23 +95,18 @@ func verifC02(specs []vSortSpec) {
 		return nil
 	})
 	verifrt.Assert(err == nil, "C02 creating rows succeeds")
-	p := verifSymPaging()
+	p := verifrt.SymPaging()
 	env.view(func(tx *bbolt.Tx) {
 		q, err := ast.Parse(env.rows, spec.text)
 		verifrt.Assert(err == nil, "C02 query parses: "+spec.text)
-		p.apply(q)
+		p.Apply(q)
 		ids, count, err := env.rows.QueryIdsC(tx, q)
 		verifrt.Assert(err == nil, "C02 query runs")
-		overflow := false
-		if p.hasSkip && p.limitSet != 2 {
-			overflow = p.skip > 0
-		}
-		_ = overflow
-		verifCheckPage(rows, spec.fields, p, ids, count, "C02 "+spec.text)
+		verifrt.CheckPage(verifToRows(rows), verifMatchBits(rows), spec.fields, p, ids, count, "C02 "+spec.text)
 		if len(spec.fields) == 0 {
 			// cursor-style iteration serves the same (unsorted) query
 			q2, _ := ast.Parse(env.rows, spec.text)
-			p.apply(q2)
+			p.Apply(q2)
 			var got []string
 			for c := env.rows.IterateIds(tx, q2); c.IsValid(); c.Next() {
 				got = append(got, string(c.Current()))
@@ -292,4 +140,20 @@ func VerifC02_SortedPaging() {
 		return
 	}
 	verifC02([]vSortSpec{vSortSpecs[3], vSortSpecs[6], vSortSpecs[8], vSortSpecs[10]})
+}
+
+func verifToRows(rows []*vRow) []*verifrt.Row {
+	out := make([]*verifrt.Row, len(rows))
+	for i, r := range rows {
+		out[i] = &verifrt.Row{Id: r.Id, S: r.S, I: r.I, F: r.F, B: r.B, M: r.M}
+	}
+	return out
+}
+
+func verifMatchBits(rows []*vRow) []bool {
+	out := make([]bool, len(rows))
+	for i, r := range rows {
+		out[i] = r.M
+	}
+	return out
 }
